@@ -6,9 +6,16 @@ For each governance action the contracts accept, the slice bounds `byteVecSlice!
 `u256From<N>Byte!` conversion wrapped around it, the action byte, the module constant and the `size!(payload) == k`
 equation are read from the sources of /repo's working tree.  The contracts cannot be executed here (no compiler, no VM):
 this extraction is the only tie to them, so every pattern that is not found fails loudly (ctx.gen_fail).
+The extraction is TOLERANT about values: whatever offsets / conversion widths / size equations the parsers carry are emitted
+as data (also when a `u256From<N>Byte!` width does not fit its slice - that is recorded as a deviation, i.e. an obligation
+that no longer checks, exactly as before); only a parser whose shape cannot be made sense of fails the extraction as a whole.
 
 run(ctx): Gen -> lake build Whv.Props.C15 + drv_gov (axiom audit) -> Go harness (overlay, p2p stub) over the real
 InjectGovernanceVAA -> Lean driver: Spec on the implementation's own VAAs first, then model-vs-implementation diff.
+The extracted facts also travel to the driver as the first line of its input (`facts - k=v ...`): the driver evaluates the
+contract-side parsers (Whv.Gov.RalF) instantiated with the facts of the CURRENT sources on every payload the real node
+emitted, so a contract change that no longer parses what the node emits is reported with the concrete request
+(`contract-rejects-node-payload` / `contract-reads-other-value`), not only as a theorem that stopped building.
 `./check C15 --replay <file>` re-executes the recorded request(s) against the real code of the current tree.
 """
 import os, re
@@ -49,8 +56,9 @@ def fn_for_action(fns, action, where):
     return hits[0]
 
 
-def slice_named(body, name, what, conv=None, src="payload"):
-    """`let <name> = [u256From<N>Byte!(]byteVecSlice!(payload, a, b)[)]` -> (a, b); the conversion width must equal b - a."""
+def slice_named(body, name, what, conv=None, src="payload", dev=None):
+    """`let <name> = [u256From<N>Byte!(]byteVecSlice!(payload, a, b)[)]` -> (a, b, N or None).
+    A conversion width N that differs from the expected one or from b - a is a deviation (appended to `dev`), not a failure."""
     m = need(r"let\s+(?:mut\s+)?%s\s*=\s*(?:(\w+)!\()?byteVecSlice!\(\s*%s\s*,\s*(\d+)\s*,\s*(\d+)\s*\)\)?" % (name, src), body,
              "`let %s = ...byteVecSlice!(%s, a, b)` in %s" % (name, src, what))
     a, b = int(m.group(2)), int(m.group(3))
@@ -59,11 +67,17 @@ def slice_named(body, name, what, conv=None, src="payload"):
         if c is None:
             raise Missing("%s in %s is no longer converted with u256From%dByte!" % (name, what, conv))
         mm = re.fullmatch(r"u256From(\d+)Byte", c)
-        if not mm or int(mm.group(1)) != conv or b - a != conv:
-            raise Missing("%s in %s: conversion %s! does not match a %d-byte slice [%d,%d)" % (name, what, c, conv, a, b))
+        if not mm:
+            raise Missing("%s in %s: unexpected conversion %s!" % (name, what, c))
+        n = int(mm.group(1))
+        if n != conv or b - a != conv:
+            if dev is None:
+                raise Missing("%s in %s: conversion %s! does not match a %d-byte slice [%d,%d)" % (name, what, c, conv, a, b))
+            dev.append("%s in %s: conversion %s! over the slice [%d,%d) - expected u256From%dByte! over a %d-byte slice" % (name, what, c, a, b, conv, conv))
+        return (a, b, n)
     elif c is not None and c != "byteVecToAddress":
         raise Missing("%s in %s: unexpected conversion %s!" % (name, what, c))
-    return (a, b)
+    return (a, b, None)
 
 
 def size_literal(body, what):
@@ -84,8 +98,16 @@ def enum_actions(src, where):
     return acts
 
 
-def extract():
+def extract(dev=None):
+    """facts dict; `dev` (a list) collects deviations the parsers' VALUES show (conversion widths that do not fit); without it
+    every deviation is a Missing as well."""
     f = {}
+
+    def sl(key, body, name, what, conv=None):
+        a, b, n = slice_named(body, name, what, conv, dev=dev)
+        f[key] = (a, b)
+        if conv is not None:
+            f[key + "Conv"] = n
     gov = vlib.read_contract(GOV)
     tbg = vlib.read_contract(TBG)
     fac = vlib.read_contract(FAC)
@@ -108,10 +130,14 @@ def extract():
         raise Missing("fn parseAndVerifyGovernanceVAAGeneric in " + GOV)
     need(r"assert!\(\s*emitterChainId\s*==\s*governanceChainId\s*,", gen, "emitter chain check in parseAndVerifyGovernanceVAAGeneric")
     need(r"assert!\(\s*emitterAddress\s*==\s*governanceEmitterAddress\s*,", gen, "emitter address check in parseAndVerifyGovernanceVAAGeneric")
-    m = need(r"assert!\(\s*u256From32Byte!\(byteVecSlice!\(payload,\s*(\d+),\s*(\d+)\)\)\s*==\s*coreModule\s*,", gen, "module check in parseAndVerifyGovernanceVAAGeneric")
-    f["moduleSlice"] = (int(m.group(1)), int(m.group(2)))
-    if f["moduleSlice"][1] - f["moduleSlice"][0] != 32:
-        raise Missing("module slice is not 32 bytes wide")
+    m = need(r"assert!\(\s*u256From(\d+)Byte!\(byteVecSlice!\(payload,\s*(\d+),\s*(\d+)\)\)\s*==\s*coreModule\s*,", gen, "module check in parseAndVerifyGovernanceVAAGeneric")
+    f["moduleSlice"] = (int(m.group(2)), int(m.group(3)))
+    f["moduleConv"] = int(m.group(1))
+    if f["moduleSlice"][1] - f["moduleSlice"][0] != 32 or f["moduleConv"] != 32:
+        msg = "module check reads u256From%dByte! over [%d,%d) - expected 32 bytes" % (f["moduleConv"], f["moduleSlice"][0], f["moduleSlice"][1])
+        if dev is None:
+            raise Missing(msg)
+        dev.append(msg)
     m = need(r"assert!\(\s*byteVecSlice!\(payload,\s*(\d+),\s*(\d+)\)\s*==\s*action\s*,", gen, "action check in parseAndVerifyGovernanceVAAGeneric")
     f["actionSlice"] = (int(m.group(1)), int(m.group(2)))
     need(r"parseAndVerifyGovernanceVAAGeneric\(\s*vaa\s*,\s*receivedSequence\s*,\s*CoreModule\s*,\s*action\s*\)", gfn.get("parseAndVerifyGovernanceVAA", ""),
@@ -128,20 +154,20 @@ def extract():
 
     # --- core actions
     b = fn_for_action(gfn, "NewGuardianSet", GOV)
-    f["gsIndex"] = slice_named(b, "newGuardianSetIndex", "NewGuardianSet", 4)
-    f["gsCount"] = slice_named(b, "newGuardianSetSize", "NewGuardianSet", 1)
+    sl("gsIndex", b, "newGuardianSetIndex", "NewGuardianSet", 4)
+    sl("gsCount", b, "newGuardianSetSize", "NewGuardianSet", 1)
     f["gsSize"] = size_linear(b, "newGuardianSetSize", "NewGuardianSet")
     m = need(r"guardianSets\[1\]\s*=\s*byteVecSlice!\(\s*payload\s*,\s*(\d+)\s*,\s*payloadSize\s*\)", b, "guardianSets[1] = byteVecSlice!(payload, 37, payloadSize)")
     f["gsStoreFrom"] = int(m.group(1))
     need(r"assert!\(\s*newGuardianSetIndex\s*==\s*guardianSetIndexes\[1\]\s*\+\s*1\s*,", b, "new index = current + 1 assertion in NewGuardianSet")
 
     b = fn_for_action(gfn, "NewMessageFee", GOV)
-    f["feeValue"] = slice_named(b, "fee", "NewMessageFee", 32)
+    sl("feeValue", b, "fee", "NewMessageFee", 32)
     f["feeSize"] = size_literal(b, "NewMessageFee")
 
     b = fn_for_action(gfn, "TransferFee", GOV)
-    f["tfAmount"] = slice_named(b, "amount", "TransferFee", 32)
-    f["tfRecipient"] = slice_named(b, "recipient", "TransferFee")
+    sl("tfAmount", b, "amount", "TransferFee", 32)
+    sl("tfRecipient", b, "recipient", "TransferFee")
     f["tfSize"] = size_literal(b, "TransferFee")
 
     # contract upgrades (core and token bridge) delegate to the factory's parser, which starts reading at `cuCodeLen`
@@ -151,19 +177,19 @@ def extract():
     b = ffn.get("parseContractUpgrade")
     if not b:
         raise Missing("fn parseContractUpgrade in " + FAC)
-    f["cuCodeLen"] = slice_named(b, "contractCodeLength", "parseContractUpgrade", 2)
+    sl("cuCodeLen", b, "contractCodeLength", "parseContractUpgrade", 2)
     lits = [int(a) for a in re.findall(r"byteVecSlice!\(\s*payload\s*,\s*(\d+)\s*,", b)]
     f["cuStart"] = min(lits)
 
     # --- token bridge actions
     b = fn_for_action(tfn, "RegisterChain", TBG)
-    f["rcChain"] = slice_named(b, "remoteChainId", "RegisterChain", 2)
-    f["rcBridge"] = slice_named(b, "remoteTokenBridgeId", "RegisterChain")
+    sl("rcChain", b, "remoteChainId", "RegisterChain", 2)
+    sl("rcBridge", b, "remoteTokenBridgeId", "RegisterChain")
     f["rcSize"] = size_literal(b, "RegisterChain")
 
     b = fn_for_action(tfn, "DestroyUnexecutedSequences", TBG)
-    f["dsChain"] = slice_named(b, "remoteChainIdBytes", "DestroyUnexecutedSequences")
-    f["dsCount"] = slice_named(b, "length", "DestroyUnexecutedSequences", 2)
+    sl("dsChain", b, "remoteChainIdBytes", "DestroyUnexecutedSequences")
+    sl("dsCount", b, "length", "DestroyUnexecutedSequences", 2)
     f["dsSize"] = size_linear(b, "length", "DestroyUnexecutedSequences")
     m = need(r"let\s+paths\s*=\s*byteVecSlice!\(\s*payload\s*,\s*(\d+)\s*,\s*payloadSize\s*\)", b, "paths slice in DestroyUnexecutedSequences")
     f["dsPathsFrom"] = int(m.group(1))
@@ -180,14 +206,16 @@ def extract():
     f["dsPathWidth"] = int(m2.group(1))
 
     b = fn_for_action(tfn, "UpdateMinimalConsistencyLevel", TBG)
-    f["clValue"] = slice_named(b, "consistencyLevel", "UpdateMinimalConsistencyLevel", 1)
+    sl("clValue", b, "consistencyLevel", "UpdateMinimalConsistencyLevel", 1)
     f["clSize"] = size_literal(b, "UpdateMinimalConsistencyLevel")
 
     b = fn_for_action(tfn, "UpdateRefundAddress", TBG)
-    f["raLen"] = slice_named(b, "addressSize", "UpdateRefundAddress", 2)
+    sl("raLen", b, "addressSize", "UpdateRefundAddress", 2)
     f["raSize"] = size_linear(b, "addressSize", "UpdateRefundAddress")
     m = need(r"byteVecToAddress!\(byteVecSlice!\(\s*payload\s*,\s*(\d+)\s*,\s*payloadSize\s*\)\)", b, "address slice in UpdateRefundAddress")
     f["raAddrFrom"] = int(m.group(1))
+    f["feeConv"] = f.pop("feeValueConv")
+    f["clConv"] = f.pop("clValueConv")
     return f
 
 
@@ -204,6 +232,8 @@ def render(f):
     a("/-- parseAndVerifyGovernanceVAAGeneric: module and action slices -/")
     a("def moduleSlice : Nat × Nat := " + pair(f["moduleSlice"]))
     a("def actionSlice : Nat × Nat := " + pair(f["actionSlice"]))
+    a("/-- the width N of the `u256From<N>Byte!` conversion wrapped around the module slice -/")
+    a("def moduleConv : Nat := %d" % f["moduleConv"])
     a("/-- `enum ActionId` of both contracts -/")
     a("def actContractUpgrade : Nat := %d" % f["coreActions"]["ContractUpgrade"])
     a("def actNewGuardianSet : Nat := %d" % f["coreActions"]["NewGuardianSet"])
@@ -217,35 +247,43 @@ def render(f):
     a("/-- submitNewGuardianSet: index, count, `size!(payload) == base + count * stride`, stored blob start; parseAndVerifyVAA key i = blob[b + i*s, +w) -/")
     a("def gsIndex : Nat × Nat := " + pair(f["gsIndex"]))
     a("def gsCount : Nat × Nat := " + pair(f["gsCount"]))
+    a("def gsIndexConv : Nat := %d\ndef gsCountConv : Nat := %d" % (f["gsIndexConv"], f["gsCountConv"]))
     a("def gsSizeBase : Nat := %d\ndef gsSizeStride : Nat := %d" % f["gsSize"])
     a("def gsStoreFrom : Nat := %d" % f["gsStoreFrom"])
     a("def gsKeyBase : Nat := %d\ndef gsKeyStride : Nat := %d\ndef gsKeyWidth : Nat := %d" % f["gsKey"])
     a("/-- submitSetMessageFee -/")
     a("def feeValue : Nat × Nat := " + pair(f["feeValue"]))
+    a("def feeConv : Nat := %d" % f["feeConv"])
     a("def feeSize : Nat := %d" % f["feeSize"])
     a("/-- submitTransferFees -/")
     a("def tfAmount : Nat × Nat := " + pair(f["tfAmount"]))
+    a("def tfAmountConv : Nat := %d" % f["tfAmountConv"])
     a("def tfRecipient : Nat × Nat := " + pair(f["tfRecipient"]))
     a("def tfSize : Nat := %d" % f["tfSize"])
     a("/-- TokenBridgeFactory.parseContractUpgrade: first thing read is the 2-byte code length; nothing is read below `cuStart` -/")
     a("def cuCodeLen : Nat × Nat := " + pair(f["cuCodeLen"]))
+    a("def cuCodeLenConv : Nat := %d" % f["cuCodeLenConv"])
     a("def cuStart : Nat := %d" % f["cuStart"])
     a("/-- parseAndVerifyRegisterChain -/")
     a("def rcChain : Nat × Nat := " + pair(f["rcChain"]))
+    a("def rcChainConv : Nat := %d" % f["rcChainConv"])
     a("def rcBridge : Nat × Nat := " + pair(f["rcBridge"]))
     a("def rcSize : Nat := %d" % f["rcSize"])
     a("/-- destroyUnexecutedSequenceContracts -/")
     a("def dsChain : Nat × Nat := " + pair(f["dsChain"]))
     a("def dsCount : Nat × Nat := " + pair(f["dsCount"]))
+    a("def dsCountConv : Nat := %d" % f["dsCountConv"])
     a("def dsSizeBase : Nat := %d\ndef dsSizeStride : Nat := %d" % f["dsSize"])
     a("def dsPathsFrom : Nat := %d" % f["dsPathsFrom"])
     a("/-- TokenBridgeForChain.destroyUnexecutedSequenceContracts: paths are consumed in chunks of this many bytes -/")
     a("def dsPathWidth : Nat := %d" % f["dsPathWidth"])
     a("/-- updateMinimalConsistencyLevel -/")
     a("def clValue : Nat × Nat := " + pair(f["clValue"]))
+    a("def clConv : Nat := %d" % f["clConv"])
     a("def clSize : Nat := %d" % f["clSize"])
     a("/-- updateRefundAddress -/")
     a("def raLen : Nat × Nat := " + pair(f["raLen"]))
+    a("def raLenConv : Nat := %d" % f["raLenConv"])
     a("def raSizeBase : Nat := %d\ndef raSizeStride : Nat := %d" % f["raSize"])
     a("def raAddrFrom : Nat := %d" % f["raAddrFrom"])
     a("")
@@ -253,15 +291,49 @@ def render(f):
     return "\n".join(L) + "\n"
 
 
+def facts_line(f):
+    """The facts as the header line of the driver's input (`facts - k=v ...`, pairs as `a:b`): Whv.Driver.GovFam parses it
+    into a `Whv.Gov.Facts` and runs the contract-side parsers with THESE values, whatever Whv.Gen.C15 it was compiled against."""
+    kv = []
+
+    def put(k, v):
+        kv.append("%s=%s" % (k, "%d:%d" % v if isinstance(v, tuple) else "%d" % v))
+    put("coreModule", f["coreModule"]); put("tokenBridgeModule", f["tokenBridgeModule"])
+    put("moduleSlice", f["moduleSlice"]); put("moduleConv", f["moduleConv"]); put("actionSlice", f["actionSlice"])
+    for k, src in (("actContractUpgrade", "ContractUpgrade"), ("actNewGuardianSet", "NewGuardianSet"), ("actNewMessageFee", "NewMessageFee"),
+                   ("actTransferFee", "TransferFee")):
+        put(k, f["coreActions"][src])
+    for k, src in (("actRegisterChain", "RegisterChain"), ("actBridgeContractUpgrade", "ContractUpgrade"), ("actDestroy", "DestroyUnexecutedSequences"),
+                   ("actMinConsistency", "UpdateMinimalConsistencyLevel"), ("actRefundAddress", "UpdateRefundAddress")):
+        put(k, f["tbActions"][src])
+    for k in ("gsIndex", "gsIndexConv", "gsCount", "gsCountConv"):
+        put(k, f[k])
+    put("gsSizeBase", f["gsSize"][0]); put("gsSizeStride", f["gsSize"][1]); put("gsStoreFrom", f["gsStoreFrom"])
+    put("gsKeyBase", f["gsKey"][0]); put("gsKeyStride", f["gsKey"][1]); put("gsKeyWidth", f["gsKey"][2])
+    for k in ("feeValue", "feeConv", "feeSize", "tfAmount", "tfAmountConv", "tfRecipient", "tfSize", "cuCodeLen", "cuCodeLenConv", "cuStart",
+              "rcChain", "rcChainConv", "rcBridge", "rcSize", "dsChain", "dsCount", "dsCountConv"):
+        put(k, f[k])
+    put("dsSizeBase", f["dsSize"][0]); put("dsSizeStride", f["dsSize"][1]); put("dsPathsFrom", f["dsPathsFrom"]); put("dsPathWidth", f["dsPathWidth"])
+    for k in ("clValue", "clConv", "clSize", "raLen", "raLenConv"):
+        put(k, f[k])
+    put("raSizeBase", f["raSize"][0]); put("raSizeStride", f["raSize"][1]); put("raAddrFrom", f["raAddrFrom"])
+    return "facts - " + " ".join(kv)
+
+
 def gen(ctx):
+    dev = []
     try:
-        f = extract()
+        f = extract(dev)
     except Missing as e:
         ctx.gen_fail("C15", "not found: %s" % e)
         return None
     except OSError as e:
         ctx.gen_fail("C15", "cannot read contract source: %s" % e)
         return None
+    for d in dev:
+        # the values are still emitted (Gen + the driver's facts line), but the obligation "every conversion fits its slice"
+        # no longer checks - reported as before
+        ctx.gen_fail("C15", "deviation: %s" % d)
     ctx.gen("C15", render(f))
     return f
 
@@ -280,6 +352,73 @@ def warm(ctx):
         ctx.go_test("node", "./cmd/guardiand", "^$", ov)
 
 
+def harness(ctx, replay_lines=None):
+    """Run the Go harness over the real InjectGovernanceVAA (generated requests, or the recorded request lines of a replay
+    file re-executed against the code of the current tree); returns the path of the case file or None (recorded in ctx.broken)."""
+    ov = ctx.overlay(OVERLAY, p2p_stub=True)
+    if ov is None:
+        return None
+    env = {}
+    if replay_lines:
+        rfile = os.path.join(ctx.work, "replay.in")
+        with open(rfile, "w") as f:
+            f.write("\n".join(replay_lines) + "\n")
+        env["VERIF_REPLAY"] = rfile
+    rc, out = ctx.go_test("node", "./cmd/guardiand", "^TestVerifC15Gov$", ov, env=env)
+    src = os.path.join(ctx.work, "gov.cases")
+    if rc != 0 or not os.path.exists(src):
+        ctx.broken.append(("tie", "go-harness", out[-800:]))
+        return None
+    return src
+
+
+def with_facts(ctx, src, facts):
+    """The driver's input: the facts of the CURRENT contract sources lead the case lines."""
+    if facts is None:
+        return src      # nothing could be extracted (reported as a gen failure): the driver falls back to Facts.node, the node's own layout
+    fed = os.path.join(ctx.work, "gov.in")
+    with open(fed, "w") as out, open(src) as f:
+        out.write(facts_line(facts) + "\n")
+        for ln in f:
+            out.write(ln)
+    return fed
+
+
+def replay(ctx, path):
+    """./check C15 --replay <file>: re-execute the recorded request(s) against the real code of the current tree, with the parser
+    facts of the current contract sources; evidence/ and Whv/Gen are left alone."""
+    import json
+    d = json.load(open(path))
+    print("replay of %s: kind=%s key=%s" % (path, d.get("kind"), d.get("key")))
+    lines = [l for l in ((d.get("replay") or {}).get("case") or []) if l.startswith("inj ")]
+    if not lines:
+        print(json.dumps(d, indent=1)[:3000])
+        print("to re-run: " + d.get("how_to_rerun", "./check C15"))
+        return 1
+    dev = []
+    try:
+        facts = extract(dev)
+    except (Missing, OSError) as e:
+        print("parser facts cannot be extracted from the current sources (%s): the driver uses the node's own layout (Facts.node)" % e)
+        facts = None
+    for x in dev:
+        print("deviation in the current contract sources: " + x)
+    ctx.lake_build(["drv_gov"])
+    src = harness(ctx, lines)
+    if src is None:
+        print("the recorded request could not be re-executed: %s" % (ctx.broken[-1:],))
+        return 1
+    out = [l for l in ctx.drive("gov", with_facts(ctx, src, facts)) if l and not l.startswith("stat")]
+    print("\n".join(l[:1500] for l in out))
+    if any(l.startswith("spec") or l.startswith("diff") for l in out):
+        print("VIOLATION property=C15 replay=%s" % path)
+        return 1
+    print("the recorded case no longer fails")
+    import shutil
+    shutil.rmtree(ctx.work, ignore_errors=True)
+    return 0
+
+
 def run(ctx):
     facts = gen(ctx)
     ctx.cov["gen_facts"] = facts
@@ -288,27 +427,8 @@ def run(ctx):
         ctx.prove(families=("gov",))
     else:
         ctx.lake_build(["drv_gov"])
-    ov = ctx.overlay(OVERLAY, p2p_stub=True)
-    if ov is None:
-        return
-    env = {}
-    rp = getattr(ctx, "replay", None)
-    if rp:
-        # re-execute the recorded request(s) against the real code of the current tree
-        import json
-        rec = json.load(open(rp))
-        lines = (rec.get("replay") or {}).get("case") or []
-        if not lines:
-            ctx.broken.append(("tie", "replay", "replay file %s carries no case lines (kind=%s)" % (rp, rec.get("kind"))))
-            return
-        rfile = os.path.join(ctx.work, "replay.in")
-        with open(rfile, "w") as f:
-            f.write("\n".join(lines) + "\n")
-        env["VERIF_REPLAY"] = rfile
-    rc, out = ctx.go_test("node", "./cmd/guardiand", "^TestVerifC15Gov$", ov, env=env)
-    src = os.path.join(ctx.work, "gov.cases")
-    if rc != 0 or not os.path.exists(src):
-        ctx.broken.append(("tie", "go-harness", out[-800:]))
+    src = harness(ctx)
+    if src is None:
         return
     kinds, samples, total = {}, [], 0
     with open(src) as f:
@@ -318,6 +438,7 @@ def run(ctx):
             kinds[k] = kinds.get(k, 0) + 1
             if kinds[k] == 1 and len(samples) < 12 and len(ln) < 3000:
                 samples.append(ln.strip()[:700])
+    src = with_facts(ctx, src, facts)
     n_ok, stats = ctx.judge("gov", src, classify)
     ctx.cov["evaluations"] += total
     ctx.cov["distinct_nontrivial"] += n_ok
@@ -338,11 +459,17 @@ def run(ctx):
         "with duplicates, case variants, zero address, malformed keys), fixed boundary sweeps, 65535/65536/65537 sequences and refund "
         "address bytes, and 2-5-message requests mixing valid and invalid messages. distinct_nontrivial = cases on which the model "
         "predicted the exact status code, message, injected VAAs and the Spec (parser-side decoding at the extracted Ralph offsets, "
-        "envelope, digest = Keccak^2(body), purity) held on the implementation's own results")
+        "envelope, digest = Keccak^2(body), purity) held on the implementation's own results. Failing-input search for contract-side "
+        "changes: the parser facts extracted from the CURRENT .ral sources (offsets, u256From<N>Byte! widths, size equations, action "
+        "bytes, module constants) lead the driver's input; every payload the real node emitted is run through the executable parser "
+        "model Whv.Gov.RalF instantiated with THOSE facts (specOkF; = specOk for the compiled-in facts, c15_specF_gen); a payload that "
+        "equals the model's own (proved) payload yet is rejected / decoded to another value is reported with the request as "
+        "contract-rejects-node-payload / contract-reads-other-value")
     ctx.cov["trusted_base"] += [
         "checks/c15.py: regex extraction of the Ralph parsers (slice bounds, conversion widths, ActionId bytes, module constants, size "
         "equations) from governance.ral, token_bridge_governance.ral, token_bridge_factory.ral, token_bridge_for_chain.ral; the contracts "
-        "are never executed (no compiler / VM offline); Whv.Gov.Ral is a hand model of the parsers' control flow around those constants",
+        "are never executed (no compiler / VM offline); Whv.Gov.Ral / Whv.Gov.RalF are hand models of the parsers' control flow around "
+        "those constants (byteVecSlice! aborts unless a <= b <= size; u256From<N>Byte! aborts unless its argument is exactly N bytes)",
         "harness/guardiand/c15_gov_verif_test.go (generator, canonical rendering, Keccak recomputation) and Whv/Driver/Gov.lean (comparison)",
         "tools/p2pstub: package guardiand is compiled with the body of p2p.Run stubbed (quic-go does not build on this Go)",
         "Keccak-256 is an oracle (digest equality is derived from equality of signing bodies)",
